@@ -4,6 +4,7 @@ import (
 	"context"
 	"crypto/sha256"
 	"fmt"
+	"math/rand"
 	"os"
 	"sort"
 	"strings"
@@ -251,6 +252,54 @@ func run05(c drv.Case, res *drv.Result) {
 	}
 	res.Stat("updates", 1)
 	res.Stat("files_compared", int64(len(wantTree)))
+	// ---- the same update under one failing store call: an update that still reports success must equal the fresh
+	// download
+	if len(res.Violations) == 0 && len(ta)+len(tb) < 200 {
+		fr := rand.New(rand.NewSource(int64(len(c.Params))*7919 + int64(len(ta))*31 + int64(len(tb))))
+		for rep := 0; rep < 3; rep++ {
+			dirF := tmp("c05-F-")
+			if err := env.Publish(nil, "repo", idA, coreh.LocalFS(dirF), p.DownConc); err != nil {
+				os.RemoveAll(dirF)
+				break
+			}
+			a := memstore.NewActor("updater")
+			k := 1 + fr.Intn(12+2*len(tb))
+			kind := ""
+			a.SetFault(func(c memstore.Call) error {
+				if c.Index == k {
+					kind = c.Store + "." + c.Op
+					return memstore.ErrInjected
+				}
+				return nil
+			})
+			uerr := core.Update(ctx, env.ReadBundle(a, "repo", idB, nil, p.DownConc), core.NewBundle(core.ConsumableStore(coreh.LocalFS(dirF)), core.Logger(coreh.Nop)))
+			res.Stat("updates_under_a_store_fault", 1)
+			if kind != "" {
+				res.Seen("faulted_call_kinds", kind)
+			}
+			stage := "faulted update reporting success"
+			if uerr != nil {
+				// the failure was reported: the directory is no longer "a local copy of one bundle", the property says
+				// nothing about it (a second Update may legitimately refuse to run on it)
+				res.Stat("updates_reporting_the_fault", 1)
+				os.RemoveAll(dirF)
+				continue
+			}
+			gotF, err := coreh.ReadDir(dirF)
+			os.RemoveAll(dirF)
+			if err != nil {
+				panic(err)
+			}
+			if d := coreh.DiffTrees(coreh.WithoutMeta(gotF), coreh.WithoutMeta(wantTree)); d != "" {
+				res.Violate("update-mismatch", "data|under-fault", "%s (fault on %s, call %d): the directory differs from a fresh download of the target: %s", stage, kind, k, d)
+				break
+			}
+			if d := coreh.DiffTrees(metaOf(gotF), metaOf(wantTree)); d != "" {
+				res.Violate("update-mismatch", "metadata|under-fault", "%s (fault on %s, call %d): the .datamon metadata differs from a fresh download of the target: %s", stage, kind, k, d)
+				break
+			}
+		}
+	}
 	res.Nontrivial = true
 	res.Canon = fmt.Sprintf("%x", sha256.Sum256(c.Params))
 	res.Seen("overlap_kind", p.Kind)
